@@ -326,6 +326,14 @@ const (
 	K1, K2 = ` + alt("1 << iota", "iota * 10", "iota", "len(\"ab\") + iota") + `, "s"
 	K3, K4
 )
+const (
+	M1 ` + alt("uint16 = iota", "= iota", "float32 = 1.5", "Num = 2") + `
+	M2
+	M3 ` + alt("= iota", "= \"go\"", "int8 = iota", "= M1") + `
+	M4
+	M5, M6 = iota, ` + alt("iota * 2", "\"x\"", "true") + `
+	M7, M8
+)
 const Big = 1 << 40
 
 func F() Num { return A + B*C }
@@ -459,11 +467,11 @@ const verifNDeclFiles = 8
 func VerifH_C02_declroundtrip() {
 	g := &verifGen{}
 	k := vp.Choose("file", verifNDeclFiles)
-	g.focus = 1 + vp.Choose("focus", 4)
+	g.focus = 1 + vp.Choose("focus", 6)
 	body := verifDeclFile(k, g)
 	vp.Assume(g.focus == 1 || g.focus <= g.n)
 	src := "package p\n\n" + body
-	_, file, valid := verifTypeCheck(src)
+	gpkg, file, valid := verifTypeCheck(src)
 	vp.Assert("ALL.declroundtrip.generator.valid", valid)
 	if !valid {
 		return
@@ -521,5 +529,34 @@ func VerifH_C02_declroundtrip() {
 	vp.Assert("C02.declroundtrip.order", keep(gorder) == keep(worder))
 	_, _, ok := verifTypeCheck(text)
 	vp.Assert("C01.declroundtrip.sound", ok)
+	// every package-level object the builder holds has the type (and constant value) go/types
+	// gives the corresponding object of the original source
+	typesOK, valsOK := true, true
+	for _, name := range gpkg.Scope().Names() {
+		want := gpkg.Scope().Lookup(name)
+		got := pkg.Types.Scope().Lookup(name)
+		if got == nil {
+			typesOK = false
+			vp.Observe("missing", name)
+			continue
+		}
+		if _, isTN := want.(*types.TypeName); isTN {
+			continue // type declarations are compared through their syntax above
+		}
+		if types.TypeString(got.Type(), nil) != types.TypeString(want.Type(), nil) {
+			typesOK = false
+			vp.Observe("objtype", name+": "+types.TypeString(got.Type(), nil)+" vs "+types.TypeString(want.Type(), nil))
+		}
+		if wc, isC := want.(*types.Const); isC {
+			gc, ok := got.(*types.Const)
+			if !ok || !verifConstEqual(gc.Val(), wc.Val()) {
+				valsOK = false
+				vp.Observe("objval", name)
+			}
+		}
+	}
+	vp.Fact("lenconst", verifB2I(strings.Contains(body, "len(\"")))
+	vp.Assert("C03.declroundtrip.objtypes", typesOK)
+	vp.Assert("C04.declroundtrip.constvalues", valsOK)
 	vp.Cover("ALL.declroundtrip.end", true)
 }
